@@ -166,7 +166,11 @@ impl Wait for YieldingWait {
         }
         loop {
             yield_now();
-            for _ in 0..self.spins_yield {
+            // always look at least once per yield, also when spins_yield is zero
+            if check(seq, w_pos, wc) {
+                return;
+            }
+            for _ in 1..self.spins_yield {
                 if check(seq, w_pos, wc) {
                     return;
                 }
